@@ -442,6 +442,13 @@ def edit_pairs(rng, n, max_voices=3):
         (['mfm', 'lp'], [('tweak', 0, ('ins', 3, 'D')), ('ins', 'osc'), ('keep', 1)]),
         (['lp', 'echo', 'mfd'], [('ins', 'dly'), ('keep', 0), ('keep', 1), ('tweak', 2, ('del', 0))]),
     ]
+    # every ordered pair of voice kinds with one of the two removed (a removed sibling before / after a survivor that shares leaves
+    # with it is where partial matches compete with exact ones)
+    for ka in kinds:
+        for kb in kinds:
+            fixed.append(([ka, kb], [('keep', 0)]))
+            fixed.append(([ka, kb], [('keep', 1)]))
+    n = max(n, len(fixed) + 32)
     scripts = list(fixed)
     while len(scripts) < n:
         m = rng.randint(1, max_voices)
